@@ -180,6 +180,9 @@ func DecodeClaimsFromCBOR(buf []byte) (IClaims, error) {
 		// profile field will then be validated as part of the full
 		// claims decoding in UnmarshalCBOR() further down.
 		Profile string `cbor:"265,keyasint"`
+		// P1's own profile claim: profiles derived from P1 declare
+		// themselves here
+		PsaProfile string `cbor:"-75000,keyasint"`
 	}{}
 
 	err := dm.Unmarshal(buf, &selector)
@@ -194,9 +197,14 @@ func DecodeClaimsFromCBOR(buf []byte) (IClaims, error) {
 		return nil, errors.New("CBOR claims-set must be a map, found null or undefined")
 	}
 
-	entry, ok := profilesRegister[selector.Profile]
+	name := selector.Profile
+	if name == "" {
+		name = selector.PsaProfile
+	}
+
+	entry, ok := profilesRegister[name]
 	if !ok {
-		return nil, fmt.Errorf("unknown profile: %q", selector.Profile)
+		return nil, fmt.Errorf("unknown profile: %q", name)
 	}
 
 	claims := entry.Profile.GetClaims()
